@@ -26,7 +26,7 @@ func (eng *Engine) newFV(fn *ssa.Function, c *Contract, pre []*Family) *FV {
 		blockOut: map[*ssa.BasicBlock]*State{}, edgeSt: map[[2]int]*State{},
 		loops: map[*ssa.BasicBlock]*LoopInfo{}, kindCount: map[string]int{},
 		unmodelled: map[string]bool{}, assumptionsUsed: map[string]bool{}, calleesUsed: map[string]bool{},
-		safetyOff: map[string]bool{}, preFams: pre,
+		safetyOff: map[string]bool{}, preFams: pre, rootOf: map[string]string{},
 	}
 	pkg := fn.Pkg
 	if pkg == nil && fn.Parent() != nil {
@@ -51,6 +51,98 @@ func (fv *FV) pkgTypes() *types.Package {
 
 func (fv *FV) newSpecCtx(pkg *types.Package, st, old *State) *SpecCtx {
 	return &SpecCtx{fv: fv, vars: map[string]SVal{}, st: st, old: old, pkg: pkg, scope: fv.eng.contractScope[pkg.Path()]}
+}
+
+// refinements verifies every repo implementation of an interface method against the
+// contract declared on the interface method.
+func (eng *Engine) refinements(c *Contract) []*fres {
+	p := eng.pkgByPath[c.Pkg]
+	if p == nil {
+		return nil
+	}
+	i := strings.Index(c.FuncName, ".")
+	tn, ok := p.Types.Scope().Lookup(c.FuncName[:i]).(*types.TypeName)
+	if !ok {
+		return nil
+	}
+	named, ok := tn.Type().(*types.Named)
+	if !ok {
+		return nil
+	}
+	it, ok := named.Underlying().(*types.Interface)
+	if !ok {
+		return nil
+	}
+	method := c.FuncName[i+1:]
+	var msig *types.Signature
+	for k := 0; k < it.NumMethods(); k++ {
+		if it.Method(k).Name() == method {
+			msig = it.Method(k).Type().(*types.Signature)
+		}
+	}
+	if msig == nil {
+		return nil
+	}
+	var out []*fres
+	for _, impl := range eng.implementations(named, method) {
+		if impl.Synthetic != "" || len(impl.Blocks) == 0 {
+			continue
+		}
+		c2 := *c
+		c2.Loops = map[int]*LoopSpec{}
+		c2.Folds = map[int]*FoldSpec{}
+		if own := eng.contractFor(impl); own != nil {
+			c2.Loops = own.Loops
+			c2.Folds = own.Folds
+			c2.NoSafety = own.NoSafety
+			// the implementation's own preconditions are its object invariant, assumed at method entry
+			c2.Assumes = append(append([]*Clause{}, c.Assumes...), own.Requires...)
+			if own.ModAssumed {
+				c2.ModAssumed = true
+			}
+		}
+		alias := map[string]string{}
+		if len(impl.Params) > 0 {
+			alias["self"] = impl.Params[0].Name()
+		}
+		names := paramNames(msig)
+		for k := range names {
+			if k < len(c.ParamNames) {
+				names[k] = c.ParamNames[k]
+			}
+		}
+		for k, n := range names {
+			if k+1 < len(impl.Params) {
+				alias[n] = impl.Params[k+1].Name()
+			}
+		}
+		fv := eng.verifyFunctionAlias(impl, &c2, alias, "~"+c.FuncName)
+		cc := c2
+		cc.Pkg = impl.Pkg.Pkg.Path()
+		cc.FuncName = impl.RelString(impl.Pkg.Pkg) + "~" + c.FuncName
+		out = append(out, &fres{c: &cc, fn: impl, fv: fv})
+	}
+	return out
+}
+
+func (eng *Engine) verifyFunctionAlias(fn *ssa.Function, c *Contract, alias map[string]string, suffix string) *FV {
+	var pre []*Family
+	var fv *FV
+	for pass := 0; pass < 4; pass++ {
+		fv = eng.newFV(fn, c, pre)
+		fv.alias = alias
+		fv.relName += suffix
+		fv.run()
+		if len(fv.famOrder) == len(pre) {
+			break
+		}
+		pre = nil
+		for _, k := range fv.famOrder {
+			f := fv.fams[k]
+			pre = append(pre, &Family{Key: f.Key, ArgSorts: f.ArgSorts, ResSort: f.ResSort})
+		}
+	}
+	return fv
 }
 
 // verifyFunction runs the symbolic execution (twice: the first pass discovers the
@@ -79,13 +171,16 @@ func (fv *FV) run() {
 	if len(fn.Blocks) == 0 {
 		return
 	}
-	st := &State{reach: "true", cells: map[*ssa.Alloc]string{}, heap: map[string]string{}, iters: map[ssa.Value]string{}, lock: map[string]string{}}
+	st := &State{reach: "true", cells: map[*ssa.Alloc]string{}, heap: map[string]string{}, iters: map[ssa.Value]string{}, lock: map[string]string{}, armed: map[*ssa.Defer]string{}}
 	fv.wm0 = "wm!0"
 	fv.declConst(fv.wm0, "Int")
 	fv.assumeGlobal(sx(">=", fv.wm0, "1"))
 	st.wm = fv.wm0
 	for _, f := range fv.preFams {
 		fv.family(f.Key, f.ArgSorts, f.ResSort)
+		if f.Key == "GL|lock" {
+			fv.assumeGlobal("(forall ((r Int)) (= (" + fv.fams[f.Key].Short + "_0 r) 0))")
+		}
 	}
 	fv.newFam = false
 	fv.params = map[string]SVal{}
@@ -95,6 +190,11 @@ func (fv *FV) run() {
 		fv.vals[p] = c
 		fv.assumeGlobal(fv.valid(c, p.Type(), fv.wm0))
 		fv.params[p.Name()] = SVal{c, p.Type()}
+	}
+	for cn, in := range fv.alias {
+		if v, ok := fv.params[in]; ok {
+			fv.params[cn] = v
+		}
 	}
 	for _, f := range fn.FreeVars {
 		c := "fv_" + sanitize(f.Name())
@@ -122,7 +222,7 @@ func (fv *FV) run() {
 			}
 			fv.assumeGlobal(t)
 		}
-		if c.HasMod {
+		if c.HasMod && !c.ModAssumed {
 			items, err := fv.modItems(ctx, c.Modifies)
 			if err != nil {
 				fv.specErrs = append(fv.specErrs, fmt.Sprintf("%s: modifies: %v", fv.relName, err))
@@ -575,6 +675,16 @@ func (fv *FV) doReturn(st *State, ret *ssa.Return) {
 		Name: fmt.Sprintf("%s.%s#cover{return %d}", shortPkg(fv.pkgPath), fv.relName, fv.retCount), Func: shortPkg(fv.pkgPath) + "." + fv.relName,
 		Kind: "cover", Guard: st.reach, Goal: "false", Prefix: len(fv.script), Expect: "sat", Props: fv.defaultProps(),
 	})
+	if lf, ok := fv.fams["GL|lock"]; ok {
+		seen := map[string]bool{}
+		for _, k := range fv.lockKeys {
+			if seen[k] {
+				continue
+			}
+			seen[k] = true
+			fv.oblige(st, "lock", "released at return", eq(fv.read(st, lf, k), "0"), ret.Pos(), nil)
+		}
+	}
 	if c == nil {
 		return
 	}
@@ -635,7 +745,15 @@ func (fv *FV) frameCheckCond(st *State, f *Family, guard string, args []string, 
 	}
 	for _, fr := range fv.activeFrames() {
 		var alts []string
-		alts = append(alts, sx(">=", args[0], fr.wmBase))
+		root := args[0]
+		for i := 0; i < 4; i++ {
+			if r, ok := fv.rootOf[root]; ok {
+				root = r
+			} else {
+				break
+			}
+		}
+		alts = append(alts, sx(">=", root, fr.wmBase))
 		all := false
 		for _, it := range fr.items {
 			if it.all {
